@@ -10,6 +10,7 @@ import gen
 import mockca
 import vlib
 from ext import depthlim
+from ext import straddle_c19
 
 FINISH = dict(
     level="proof",
@@ -65,6 +66,12 @@ FINISH["trusted_base"].append(
     "py/gen.py extractor of MAX_HOOK_GROUP_DEPTH / MAX_HOOK_GROUP_MEMBERS / MAX_INCLUDE_DEPTH (Gen/Consts.lean; "
     "theorems of Props/C19Depth.lean); the number of stack frames is proved bounded, the size of a frame is observed")
 
+FINISH["rule"] += (
+    " alignment (py/ext/straddle_c19.py): every string leaf of base_full (values, list items, env keys; a certificate "
+    "named after its first identifier too) set to long non-ASCII strings in which the byte offsets 15/16 … 63/64, 100, "
+    "127/128, 200, 250, 255/256, 500 … 4095/4096 lie INSIDE a 2-, 3- or 4-byte character (every continuation byte), and to "
+    "an ASCII prefix of 0..3 bytes + a repeated 2-/3-/4-byte character of total length just beyond 63 … 4096 bytes."
+)
 UNITS = "smhdw"
 MULT = {"s": 1, "m": 60, "h": 3600, "d": 86400, "w": 604800}
 U64 = 2 ** 64 - 1
@@ -242,6 +249,7 @@ def config_part(ctx):
             idx += 1
             cases.append((label, cfggen.write(os.path.join(d, "main.toml"), cfg), cfg))
         idx = auditd.add_cases(ctx, cases, scratch, url, helper, idx)
+        idx = straddle_c19.add_cases(ctx, cases, scratch, url, helper, idx)
         ops = [{"op": "first_request", "path": p, "timeout_ms": TIMEOUT_MS} for _, p, _ in cases]
         # the limit families (py/ext/depthlim.py): what the Lean model says of the same tree, and which of
         # them run in a process of their own (address-space cap, time-out)
@@ -336,7 +344,7 @@ def config_part(ctx):
         # a configuration that already crashed or hung the loader is not loaded again without a time-out
         answered = [c for c, cls in zip(cases, classes) if cls not in ("hung", "died", "unknown")]
         auditd.first_schedule_part(ctx, answered, helper, scratch)
-        auditd.daemon_part(ctx, answered)
+        auditd.daemon_part(ctx, straddle_c19.daemon_subset(ctx, answered))
     finally:
         ca.stop()
         helper.close()
